@@ -385,6 +385,7 @@ macro_rules! zeros_harness {
     ($name:ident, $o:expr) => {
         #[kani::proof]
         #[kani::unwind(10)]
+        #[kani::solver(kissat)]
         fn $name() {
             check_zeros_lemmas::<$o>();
         }
